@@ -44,7 +44,7 @@ STRS = ['dflt', 'alpha', 'beta', 'x y', 'a=b', '100%', 'semi;colon', '', '#h', '
 COMBO_U = ['one', 'two', 'three', 'four', 'five']
 ARR_U = ['x', 'y', 'z', 'w']
 FREE_U = ['p', 'q', 'r', 'x']
-RANGES = [(0, 10), (-5, 5), (1, 100), (0, 3)]
+RANGES = [(0, 10), (-5, 5), (1, 100), (0, 3), (0, 5), (-5, 10), (1, 10), (0, 100), (2, 10)]      # many pairs differ in ONE bound only
 TYPES = ['string', 'boolean', 'integer', 'combo', 'array', 'feature']
 YIELD_PAIR_NAMES = ('s1', 'y1', 'y2')      # names that exist on both sides with the same type
 OBS_BUILTINS_TOP = ['werror', 'warning_level', 'default_library', 'buildtype', 'debug', 'optimization']
